@@ -76,7 +76,9 @@ func NewPacketConnWithConst(s NetcForPacketConn, service string, advertise bool,
 
 	npc.StartUnreachable()
 	s.GetListenerRegistry()[service] = npc
-	verifhook.Emit(s.NodeID(), "pc_open", "svc", service, "adv", advertise)
+	if verifhook.On {
+		verifhook.Emit(s.NodeID(), "pc_open", "svc", service, "adv", advertise)
+	}
 
 	return npc
 }
@@ -156,7 +158,9 @@ func (pc *PacketConn) StartUnreachable() {
 			FromNode := msg.FromNode
 			FromService := msg.FromService
 			if FromNode == pc.s.NodeID() && FromService == pc.localService {
-				verifhook.Emit(pc.s.NodeID(), "unr_socket", "svc", pc.localService, "problem", msg.Problem, "to", msg.ToNode, "tosvc", msg.ToService)
+				if verifhook.On {
+					verifhook.Emit(pc.s.NodeID(), "unr_socket", "svc", pc.localService, "problem", msg.Problem, "to", msg.ToNode, "tosvc", msg.ToService)
+				}
 				_ = pc.unreachableSubs.Publish(msg)
 			}
 		}
@@ -273,7 +277,9 @@ func (pc *PacketConn) Close() error {
 	pc.s.GetListenerLock().Lock()
 	defer pc.s.GetListenerLock().Unlock()
 	delete(pc.s.GetListenerRegistry(), pc.localService)
-	verifhook.Emit(pc.s.NodeID(), "pc_close", "svc", pc.localService, "adv", pc.advertise)
+	if verifhook.On {
+		verifhook.Emit(pc.s.NodeID(), "pc_close", "svc", pc.localService, "adv", pc.advertise)
+	}
 	if pc.cancel != nil {
 		pc.cancel()
 	}
